@@ -342,9 +342,9 @@ def main(argv):
     ev = {
         'property_id': prop, 'tier': tier, 'seed': seed, 'level': 'model_checking',
         'coverage': {
-            'evaluations': sum(len(r['runs']) for r in results),
+            'evaluations': sum(len(r['runs']) for r in results) + (e2res['queries'] + e2res['native_runs'] if e2res else 0),
             'distinct_nontrivial': obligations,
-            'rule': 'one evaluation = one CBMC run (harness x back end); distinct_nontrivial = distinct labelled '
+            'rule': 'one evaluation = one CBMC run (harness x back end), one z3 query of the grammar engine, or one run of the real parsers by the grammar engine; distinct_nontrivial = distinct labelled '
                     'obligations (plus one no-panic obligation per harness) decided by the solver over all values '
                     'of the symbolic inputs',
             'samples': samples or [{'note': 'no discharged obligation to show', 'inconclusive': inconclusive[:3]}],
